@@ -7,7 +7,7 @@ import ast
 from ..interp import cval, has_const
 from ..kinds import is_cart
 from ..source import norm_text
-from .geo import all_geos, geo_text, kind_errors, uniq_events
+from .geo import all_geos, geo_text, kind_errors, under, uniq_events
 
 OR = 'gemdat.orientations.Orientations'
 
@@ -58,13 +58,13 @@ def check(ctx):
     else:
         msg = f'returned directions are {geo_text(g)}'
     ctx.ob('R1', fd, 'return value', True if ok else (None if g is None else False), 'minimum-image fractional bond vectors' if ok else msg)
-    for e in uniq_events(it, {'to_cart'}, lambda f: f.qualname == fp.qualname):
+    for e in uniq_events(it, {'to_cart'}, under(fp.qualname)):
         a = e['arg']
         lat = e['lattice']
         ok = a is not None and a.geo in (('FDIFF', 'MI'), ('FDIFF', 'CW')) and lat is not None and lat.frame == 'LAT'
         ctx.ob('R1', fp, e['node'], True if ok else (None if a is None or a.geo is None else False),
                'Cartesian bond vectors in the trajectory lattice' if ok else f'Cartesian conversion of {geo_text(a.geo if a is not None else None)}')
-    if not uniq_events(it, {'to_cart'}, lambda f: f.qualname == fp.qualname):
+    if not uniq_events(it, {'to_cart'}, under(fp.qualname)):
         ctx.ob('R1', fp, 'Cartesian conversion', False, 'bond vectors are not converted to Cartesian coordinates')
     check_axes(ctx)
     check_spherical(ctx)
@@ -215,7 +215,7 @@ def check_autocorr(ctx):
     if it.entry_self is not None and not getattr(it, '_autocorr_done', False):
         it._autocorr_done = True
         it.call_function(fa, [], {}, it.final_state, self_av=it.entry_self, node=None)
-    kind_errors(ctx, 'R4', it, lambda f: f.qualname == 'gemdat.utils.fft_autocorrelation')
+    kind_errors(ctx, 'R4', it, under('gemdat.utils.fft_autocorrelation'))
     calls = [n for n in ast.walk(fa.node) if isinstance(n, ast.Call)]
     ok = any(norm_text(n.func).endswith('fft_autocorrelation') and n.args and norm_text(n.args[0]) == 'self.vectors' for n in calls)
     ctx.ob('R4', fa, 'fft_autocorrelation(self.vectors)', True if ok else None, 'autocorrelation of the orientation vectors' if ok else 'call not recognised')
